@@ -11,13 +11,13 @@ import "unsafe"
 // Eq is structural equality: field-wise on structs, observational on
 // Option/Try (payload compared only when present), extensional on functions,
 // element-wise on slices, identity on pointers.
-func Eq(a, b any) bool { panic("verifspec: ghost function") }
+func Eq(a, b any) bool { return rt().eq(a, b) }
 
 // Same is identity (same pointer, same slice header).
-func Same(a, b any) bool { panic("verifspec: ghost function") }
+func Same(a, b any) bool { return rt().eq(a, b) }
 
 // Forall takes a func(x T, ...) bool literal and states it for all arguments.
-func Forall(f any) bool { panic("verifspec: ghost function") }
+func Forall(f any) bool { return rt().forall(f) }
 
 // Exists takes a func(x T, ...) bool literal.
 func Exists(f any) bool { panic("verifspec: ghost function") }
@@ -30,20 +30,20 @@ func Or(a bool, b func() bool) bool  { return a || b() }
 
 // EqT states that both thunks yield Eq values and invoke the same user
 // callbacks, with the same arguments, in the same order (or both panic).
-func EqT(a, b func() any) bool { panic("verifspec: ghost function") }
+func EqT(a, b func() any) bool { return rt().eqT(a, b) }
 
 // Begin / End bracket the call of the function under contract.
-func Begin() {}
-func End()   {}
+func Begin() { if replay != nil { replay.begin() } }
+func End()   { if replay != nil { replay.end() } }
 
 // NoCalls: the function under contract invoked no user callback.
-func NoCalls() bool { panic("verifspec: ghost function") }
+func NoCalls() bool { return rt().calls() == 0 }
 
 // Calls(n): the function under contract invoked user callbacks exactly n times.
-func Calls(n int) bool { panic("verifspec: ghost function") }
+func Calls(n int) bool { return rt().calls() == n }
 
 // Panics: the thunk panics.
-func Panics(f func() any) bool { panic("verifspec: ghost function") }
+func Panics(f func() any) bool { return rt().panics(f) }
 
 // Fresh: the pointer / slice backing array was allocated by the function under contract.
 func Fresh(a any) bool { panic("verifspec: ghost function") }
@@ -100,10 +100,10 @@ func Do(f func()) int { f(); return 0 }
 // variables captured by their closures, and the positions of the input
 // iterators they read) by arbitrary values: "any reachable state".  Used with
 // Assume(coupling invariant) in step lemmas about stateful iterators.
-func Havoc(roots ...any) {}
+func Havoc(roots ...any) { noReplay("Havoc") }
 
 // Assume restricts the rest of the lemma to executions where b holds.
-func Assume(b bool) {}
+func Assume(b bool) { if replay != nil && !b { panic(Inconclusive{"Assume: the replayed input is outside the assumption"}) } }
 
 // Assert is a proof cut: b becomes an obligation of its own at this point and is
 // known afterwards (an intermediate lemma for the solver; never an assumption).
@@ -153,10 +153,10 @@ func IterPosAtEntry(it any) int { panic("verifspec: ghost function") }
 // do; each store / successful compare-and-swap generates the obligation that
 // it is such a step.  The ...Ptr forms are for sync/atomic pointer cells, the
 // ...Value forms for sync/atomic.Value.
-func SetRelyPtr(f func(old, new unsafe.Pointer) bool)      {}
-func SetGuaranteePtr(f func(old, new unsafe.Pointer) bool) {}
-func SetRelyValue(f func(old, new any) bool)               {}
-func SetGuaranteeValue(f func(old, new any) bool)          {}
+func SetRelyPtr(f func(old, new unsafe.Pointer) bool)      { noReplay("SetRelyPtr") }
+func SetGuaranteePtr(f func(old, new unsafe.Pointer) bool) { noReplay("SetGuaranteePtr") }
+func SetRelyValue(f func(old, new any) bool)               { noReplay("SetRelyValue") }
+func SetGuaranteeValue(f func(old, new any) bool)          { noReplay("SetGuaranteeValue") }
 
 // Holding: the current thread holds the mutex m (a *sync.Mutex).
 func Holding(m any) bool { panic("verifspec: ghost function") }
@@ -164,7 +164,7 @@ func Holding(m any) bool { panic("verifspec: ghost function") }
 // Spawned: number of tasks started with a go statement that have not run yet;
 // RunSpawned runs them all, one after the other, until none is left.
 func Spawned() int { panic("verifspec: ghost function") }
-func RunSpawned()  {}
+func RunSpawned()  { noReplay("RunSpawned") }
 
 // AtomicWrites: number of successful atomic writes (Store, successful
 // CompareAndSwap) performed by the code under contract so far.
@@ -174,7 +174,7 @@ func AtomicWrites() int { panic("verifspec: ghost function") }
 func CalledOnce(f any, arg any) bool { panic("verifspec: ghost function") }
 
 // TraceLen: number of user-callback invocations so far (since Begin, or since the lemma started).
-func TraceLen() int { panic("verifspec: ghost function") }
+func TraceLen() int { return len(rt().trace) }
 
 // TraceCall(i, f, arg): the i-th user-callback invocation was f(arg).
 func TraceCall(i int, f any, arg any) bool { panic("verifspec: ghost function") }
@@ -182,7 +182,7 @@ func TraceCall(i int, f any, arg any) bool { panic("verifspec: ghost function") 
 // Shared declares an atomic cell (*sync/atomic.Value) as shared with other
 // threads: the environment takes a rely step on it now and whenever the code
 // under contract is about to acquire a mutex.
-func Shared(cell any) {}
+func Shared(cell any) { noReplay("Shared") }
 
 // Peek reads a shared sync/atomic.Value cell without giving the environment a
 // turn: the content as left by the last atomic step of the code under contract.
